@@ -64,25 +64,60 @@ Proof.
     + rewrite vscal_len. lia.
 Qed.
 
+(* ---------- weighted inner product algebra ---------- *)
+Lemma wdot_vscal_r (w d g : Rvec) c : wdot w d (vscal c g) = c * wdot w d g.
+Proof. rewrite !wdot_as_dot_r. rewrite <- dot_vscal_r. f_equal. unfold vmul, vscal.
+  revert g; induction w as [|u w IH]; intros [|b g]; cbn [map vmap2]; try reflexivity.
+  rewrite IH. f_equal. numR. ring.
+Qed.
+Lemma wdot_vscal_l (w d g : Rvec) c : wdot w (vscal c d) g = c * wdot w d g.
+Proof. rewrite !wdot_as_dot_r. apply dot_vscal_l. Qed.
+Lemma wdot_vadd_r (w d g1 g2 : Rvec) : length g1 = length g2 ->
+  wdot w d (vadd g1 g2) = wdot w d g1 + wdot w d g2.
+Proof.
+  revert d g1 g2; induction w as [|u w IH]; intros [|a d] [|b g1] [|c g2] Hl; cbn in Hl; try lia;
+    try (cbn; lra).
+  unfold vadd. cbn [vmap2]. rewrite !wdot_cons. fold (vadd g1 g2). rewrite IH by lia. numR. ring.
+Qed.
+Lemma wdot_zero_r (w d : Rvec) n : wdot w d (vconst n 0) = 0.
+Proof. rewrite wdot_as_dot_r.
+  assert (E : forall (w : Rvec) n, exists m, vmul w (vconst n 0) = vconst m 0).
+  { clear. induction w as [|u w IH]; intros [|n]; try (exists 0%nat; reflexivity).
+    destruct (IH n) as [m Hm]. exists (S m). unfold vmul, vconst in *. cbn [repeat vmap2]. rewrite Hm. f_equal. numR; ring. }
+  destruct (E w n) as [m ->]. apply dot_zero_r.
+Qed.
+Lemma wdot_vmul_shift (w d v g : Rvec) : wdot w (vmul d v) g = wdot w d (vmul v g).
+Proof.
+  revert d v g; induction w as [|u w IH]; intros [|a d] [|b v] [|c g]; try reflexivity.
+  unfold vmul. cbn [vmap2]. rewrite !wdot_cons. fold (vmul d v). fold (vmul v g). rewrite IH. numR. ring.
+Qed.
+Lemma all_one_wdot (w a b : Rvec) : all_one w = true -> length w = length a -> wdot w a b = dot a b.
+Proof.
+  revert a b; induction w as [|u w IH]; intros [|x a] [|y b] Ho Hl; cbn in Hl; try lia; try reflexivity.
+  cbn [all_one forallb] in Ho. apply andb_prop in Ho as [Hu Ho]. numR.
+  destruct (Reqb_spec u 1) as [->|]; [|discriminate Hu].
+  rewrite wdot_cons, dot_cons', IH by (auto; lia). ring.
+Qed.
+
 (* ---------- regular points ---------- *)
-Fixpoint fregular (f : fexprR) (x : Rvec) : Prop :=
+Fixpoint fregular (w : Rvec) (f : fexprR) (x : Rvec) : Prop :=
   match f with
-  | FL2 _ => 0 < dot x x
+  | FL2 _ => 0 < wdot w x x
   | FL1 _ => forall i, (i < length x)%nat -> nth i x 0 <> 0
   | FL2Sq _ | FConst _ _ => True
-  | FLScal f _ | FScalarSum f _ | FQP f _ _ _ => fregular f x
-  | FRScal f s => fregular f (vscal s x)
-  | FSum f g | FProd f g => fregular f x /\ fregular g x
-  | FQuot f g => fregular f x /\ fregular g x /\ feval sqrt g x <> 0
-  | FTransl f t => fregular f (vsub x t)
-  | FRVec f v => fregular f (vmul x v)
-  | FCompM f _ rows => fregular f (mvec rows x)
+  | FLScal f _ | FScalarSum f _ | FQP f _ _ _ => fregular w f x
+  | FRScal f s => fregular w f (vscal s x)
+  | FSum f g | FProd f g => fregular w f x /\ fregular w g x
+  | FQuot f g => fregular w f x /\ fregular w g x /\ feval sqrt w g x <> 0
+  | FTransl f t => fregular w f (vsub x t)
+  | FRVec f v => fregular w f (vmul x v)
+  | FCompM f w' _ rows => fregular w' f (mvec rows x)
   end.
 
-Lemma fgrad_len (f : fexprR) : forall x, fwt f = true -> length x = fdim f -> length (fgrad sqrt f x) = fdim f.
+Lemma fgrad_len (f : fexprR) : forall w x, fwt f = true -> length x = fdim f -> length (fgrad sqrt w f x) = fdim f.
 Proof.
-  induction f as [n|n|n|n c|f IH s|f IH s|f IHf g IHg|f IH c|f IH t|f IH a u c|f IHf g IHg|f IHf g IHg|f IH v|f IH n rows];
-    intros x Hw Hx; cbn [fwt fdim fgrad] in *.
+  induction f as [n|n|n|n c|f IH s|f IH s|f IHf g IHg|f IH c|f IH t|f IH a u c|f IHf g IHg|f IHf g IHg|f IH v|f IH w' n rows];
+    intros w x Hw Hx; cbn [fwt fdim fgrad] in *.
   - rewrite vscal_len; exact Hx.
   - destruct (_ =? _)%num; [rewrite vconst_len|rewrite map_length]; exact Hx.
   - rewrite map_length; exact Hx.
@@ -102,126 +137,150 @@ Proof.
     unfold vadd. apply vmap2_len; rewrite vscal_len; [apply IHf; auto|rewrite He; apply IHg; auto; lia].
   - apply andb_prop in Hw as [Wf Hv]. apply Nat.eqb_eq in Hv.
     unfold vmul at 1. apply vmap2_len; [exact Hv|]. apply IH; auto. unfold vmul; apply vmap2_len; lia.
-  - apply andb_prop in Hw as [Hw Hr]. apply mtvec_len. intros r Hin.
+  - apply andb_prop in Hw as [Hw _]. apply andb_prop in Hw as [Hw Hr]. apply mtvec_len. intros r Hin.
     rewrite forallb_forall in Hr. apply Nat.eqb_eq. apply Hr. exact Hin.
 Qed.
 
 (* ---------- the theorem ---------- *)
-Theorem fgrad_sound (f : fexprR) : forall x,
-  fwt f = true -> length x = fdim f -> fregular f x ->
-  sdiff (fdim f) (feval sqrt f) x (fun d => dot d (fgrad sqrt f x)).
+Theorem fgrad_sound (f : fexprR) : forall w x,
+  fwt f = true -> fok w f = true -> length w = fdim f -> length x = fdim f -> fregular w f x ->
+  sdiff (fdim f) (feval sqrt w f) x (fun d => wdot w d (fgrad sqrt w f x)).
 Proof.
-  induction f as [n|n|n|n c|f IH s|f IH s|f IHf g IHg|f IH c|f IH t|f IH a u c|f IHf g IHg|f IHf g IHg|f IH v|f IH n rows];
-    intros x Hw Hx Hreg; cbn [fwt fdim feval fgrad fregular] in *.
+  induction f as [n|n|n|n c|f IH s|f IH s|f IHf g IHg|f IH c|f IH t|f IH a u c|f IHf g IHg|f IHf g IHg|f IH v|f IH w' n rows];
+    intros w x Hw Hok Hwl Hx Hreg; cbn [fwt fok fdim feval fgrad fregular] in *.
   - (* L2NormSquared *)
-    intros g d Hc. pose proof (curve_mul _ _ _ _ _ _ _ Hc Hc) as (M0 & Md & Ml & Mder).
-    eapply dpl_eq; [|unfold dot; apply (dpl_sumf n); [exact Ml|exact Md|exact Mder]].
-    rewrite sumf_vadd_self, dot_vscal_r. numR. reflexivity.
+    intros g d Hc.
+    pose proof (dpl_dot2 _ _ _ _ _ _ _ (curve_mul_const _ _ _ _ w Hc Hwl) Hc) as H2.
+    apply (dpl_ext (fun t => dot (vmul (g t) w) (g t))); [intros t; rewrite wdot_as_dot; reflexivity|].
+    eapply dpl_eq; [|exact H2].
+    rewrite wdot_vscal_r, <- !wdot_as_dot, (dot_comm d), <- wdot_as_dot, (wdot_comm w x d). numR. ring.
   - (* L2Norm *)
-    intros g d Hc. destruct (curve_norm _ _ _ _ Hc Hreg) as (_ & _ & _ & Hder).
-    numR. destruct (Reqb_spec (sqrt (dot x x)) 0) as [E|_].
-    { apply sqrt_eq_0 in E; [lra|apply dot_self_nonneg]. }
+    intros g d Hc. destruct (curve_wnorm _ w _ _ _ Hc Hwl Hreg) as (_ & _ & _ & Hder).
+    numR. destruct (Reqb_spec (sqrt (wdot w x x)) 0) as [E|_].
+    { exfalso. apply sqrt_eq_0 in E; lra. }
     apply (Hder 0%nat). lia.
   - (* L1Norm *)
     intros g d Hc. pose proof Hc as (_ & Hd & Hl & _).
     pose proof (curve_map _ Rabs sgnR _ _ _ Hc) as Hm.
-    destruct Hm as (M0 & Md & Ml & Mder).
-    { intros i Hi. apply dpl_abs. apply Hreg. rewrite Hx. exact Hi. }
-    unfold sum1. numR. unfold dot.
-    apply (dpl_sumf n); [exact Ml|exact Md|exact Mder].
+    assert (Hm' : curve n (fun t => map Rabs (g t)) (map Rabs x) (vmul d (map sgnR x))).
+    { apply Hm. intros i Hi. apply dpl_abs. apply Hreg. rewrite Hx. exact Hi. }
+    destruct (curve_mul_const _ _ _ _ w Hm' Hwl) as (M0 & Md & Ml & Mder).
+    apply (dpl_ext (fun t => sumf (vmul (map Rabs (g t)) w))).
+    { intros t. numR. rewrite (vmul_comm w). reflexivity. }
+    eapply dpl_eq; [|apply (dpl_sumf n); [exact Ml|exact Md|exact Mder]].
+    unfold wdot. rewrite (vmul_comm w). reflexivity.
   - (* Constant *)
-    intros g d Hc. rewrite dot_zero_r. apply derivable_pt_lim_const.
+    intros g d Hc. rewrite wdot_zero_r. apply derivable_pt_lim_const.
   - (* LeftScalarMult *)
-    intros g d Hc. rewrite dot_vscal_r. numR. apply derivable_pt_lim_scal. apply (IH x Hw Hx Hreg g d Hc).
+    intros g d Hc. rewrite wdot_vscal_r. numR. apply derivable_pt_lim_scal. apply (IH w x Hw Hok Hwl Hx Hreg g d Hc).
   - (* RightScalarMult *)
-    intros g d Hc. rewrite dot_vscal_r, <- dot_vscal_l.
+    intros g d Hc. rewrite wdot_vscal_r, <- wdot_vscal_l.
     assert (Hsx : length (vscal s x) = fdim f) by (rewrite vscal_len; exact Hx).
-    apply (IH (vscal s x) Hw Hsx Hreg (fun t => vscal s (g t)) (vscal s d)). apply curve_scal. exact Hc.
+    apply (IH w (vscal s x) Hw Hok Hwl Hsx Hreg (fun t => vscal s (g t)) (vscal s d)). apply curve_scal. exact Hc.
   - (* Sum *)
     apply andb_prop in Hw as [Hw He]. apply andb_prop in Hw as [Wf Wg]. apply Nat.eqb_eq in He.
-    destruct Hreg as [Rf Rg]. assert (Hxg : length x = fdim g) by lia.
-    intros h d Hc. pose proof Hc as (_ & Hd & _).
-    rewrite dot_vadd_r; [|rewrite !fgrad_len; auto|rewrite fgrad_len; auto; lia]. numR.
-    apply derivable_pt_lim_plus; [apply (IHf x Wf Hx Rf h d Hc)|].
-    rewrite He in Hc. apply (IHg x Wg Hxg Rg h d Hc).
+    apply andb_prop in Hok as [Of Og].
+    destruct Hreg as [Rf Rg]. assert (Hxg : length x = fdim g) by lia. assert (Hwg : length w = fdim g) by lia.
+    intros h d Hc.
+    rewrite wdot_vadd_r by (rewrite !fgrad_len; auto). numR.
+    apply derivable_pt_lim_plus; [apply (IHf w x Wf Of Hwl Hx Rf h d Hc)|].
+    rewrite He in Hc. apply (IHg w x Wg Og Hwg Hxg Rg h d Hc).
   - (* ScalarSum *)
-    intros h d Hc. pose proof Hc as (_ & Hd & _).
-    rewrite dot_vadd_r; [|rewrite fgrad_len, vconst_len; auto|rewrite fgrad_len; auto; lia].
-    rewrite dot_zero_r. numR.
-    apply derivable_pt_lim_plus; [apply (IH x Hw Hx Hreg h d Hc)|apply derivable_pt_lim_const].
+    intros h d Hc.
+    rewrite wdot_vadd_r by (rewrite fgrad_len, vconst_len; auto).
+    rewrite wdot_zero_r. numR.
+    apply derivable_pt_lim_plus; [apply (IH w x Hw Hok Hwl Hx Hreg h d Hc)|apply derivable_pt_lim_const].
   - (* Translation *)
     apply andb_prop in Hw as [Wf Ht]. apply Nat.eqb_eq in Ht.
     intros h d Hc.
     assert (Hxt : length (vsub x t) = fdim f) by (unfold vsub; apply vmap2_len; lia).
-    apply (IH (vsub x t) Wf Hxt Hreg (fun s => vsub (h s) t) d). apply curve_sub_const; [exact Hc|exact Ht].
+    apply (IH w (vsub x t) Wf Hok Hwl Hxt Hreg (fun s => vsub (h s) t) d). apply curve_sub_const; [exact Hc|exact Ht].
   - (* QuadraticPerturb *)
     apply andb_prop in Hw as [Wf Hu]. apply Nat.eqb_eq in Hu.
     intros h d Hc. pose proof Hc as (_ & Hd & _).
-    pose proof (fgrad_len f x Wf Hx) as Hgl.
-    rewrite dot_vadd_r; [|unfold vadd; rewrite (vmap2_len _ _ _ (fdim f)); rewrite ?vscal_len; auto; lia
-                         |unfold vadd; rewrite (vmap2_len _ _ _ (fdim f)); rewrite ?vscal_len; auto; lia].
-    rewrite dot_vadd_r; [|rewrite vscal_len; lia|lia]. rewrite dot_vscal_r. numR.
-    apply (dpl_eq _ _ (dot d (fgrad sqrt f x) + a * (2 * dot d x) + dot d u + 0)); [ring|].
+    pose proof (fgrad_len f w x Wf Hx) as Hgl.
+    rewrite wdot_vadd_r by (unfold vadd; rewrite (vmap2_len _ _ _ (fdim f)); rewrite ?vscal_len; auto; lia).
+    rewrite wdot_vadd_r by (rewrite vscal_len; lia). rewrite wdot_vscal_r. numR.
+    apply (dpl_eq _ _ (wdot w d (fgrad sqrt w f x) + a * (2 * wdot w d x) + wdot w d u + 0)); [ring|].
     apply derivable_pt_lim_plus; [|apply derivable_pt_lim_const].
     apply derivable_pt_lim_plus.
-    + apply derivable_pt_lim_plus; [apply (IH x Wf Hx Hreg h d Hc)|].
+    + apply derivable_pt_lim_plus; [apply (IH w x Wf Hok Hwl Hx Hreg h d Hc)|].
       apply derivable_pt_lim_scal.
-      pose proof (curve_mul _ _ _ _ _ _ _ Hc Hc) as (M0 & Md & Ml & Mder).
-      eapply dpl_eq; [|unfold dot; apply (dpl_sumf (fdim f)); [exact Ml|exact Md|exact Mder]].
-      rewrite sumf_vadd_self. reflexivity.
-    + destruct (curve_dot _ _ _ _ u Hc Hu) as (_ & _ & _ & Hder). apply (Hder 0%nat). lia.
+      pose proof (dpl_dot2 _ _ _ _ _ _ _ (curve_mul_const _ _ _ _ w Hc Hwl) Hc) as H2.
+      apply (dpl_ext (fun t => dot (vmul (h t) w) (h t))); [intros t; rewrite wdot_as_dot; reflexivity|].
+      eapply dpl_eq; [|exact H2].
+      rewrite <- !wdot_as_dot, (dot_comm d), <- wdot_as_dot, (wdot_comm w x d). ring.
+    + apply (dpl_ext (fun t => dot (h t) (vmul w u))); [intros t; rewrite wdot_as_dot_r; reflexivity|].
+      rewrite wdot_as_dot_r.
+      assert (Hwu : length (vmul w u) = fdim f) by (unfold vmul; apply vmap2_len; lia).
+      destruct (curve_dot _ _ _ _ (vmul w u) Hc Hwu) as (_ & _ & _ & Hder). apply (Hder 0%nat). lia.
   - (* Product *)
     apply andb_prop in Hw as [Hw He]. apply andb_prop in Hw as [Wf Wg]. apply Nat.eqb_eq in He.
-    destruct Hreg as [Rf Rg]. assert (Hxg : length x = fdim g) by lia.
+    apply andb_prop in Hok as [Of Og].
+    destruct Hreg as [Rf Rg]. assert (Hxg : length x = fdim g) by lia. assert (Hwg : length w = fdim g) by lia.
     intros h d Hc. pose proof Hc as (H0 & Hd & _).
-    rewrite dot_vadd_r; [|rewrite !vscal_len, !fgrad_len; auto|rewrite vscal_len, fgrad_len; auto; lia].
-    rewrite !dot_vscal_r. numR.
-    apply (dpl_eq _ _ (dot d (fgrad sqrt f x) * feval sqrt g (h 0) + feval sqrt f (h 0) * dot d (fgrad sqrt g x))).
+    rewrite wdot_vadd_r by (rewrite !vscal_len, !fgrad_len; auto).
+    rewrite !wdot_vscal_r. numR.
+    apply (dpl_eq _ _ (wdot w d (fgrad sqrt w f x) * feval sqrt w g (h 0) + feval sqrt w f (h 0) * wdot w d (fgrad sqrt w g x))).
     { rewrite H0. ring. }
-    apply (derivable_pt_lim_mult (fun t => feval sqrt f (h t)) (fun t => feval sqrt g (h t)));
-      [apply (IHf x Wf Hx Rf h d Hc)|rewrite He in Hc; apply (IHg x Wg Hxg Rg h d Hc)].
+    apply (derivable_pt_lim_mult (fun t => feval sqrt w f (h t)) (fun t => feval sqrt w g (h t)));
+      [apply (IHf w x Wf Of Hwl Hx Rf h d Hc)|rewrite He in Hc; apply (IHg w x Wg Og Hwg Hxg Rg h d Hc)].
   - (* Quotient *)
     apply andb_prop in Hw as [Hw He]. apply andb_prop in Hw as [Wf Wg]. apply Nat.eqb_eq in He.
-    destruct Hreg as (Rf & Rg & Hnz). assert (Hxg : length x = fdim g) by lia.
+    apply andb_prop in Hok as [Of Og].
+    destruct Hreg as (Rf & Rg & Hnz). assert (Hxg : length x = fdim g) by lia. assert (Hwg : length w = fdim g) by lia.
     intros h d Hc. pose proof Hc as (H0 & Hd & _).
-    rewrite dot_vadd_r; [|rewrite !vscal_len, !fgrad_len; auto|rewrite vscal_len, fgrad_len; auto; lia].
-    rewrite !dot_vscal_r. numR.
-    apply (dpl_eq _ _ ((dot d (fgrad sqrt f x) * feval sqrt g (h 0) - dot d (fgrad sqrt g x) * feval sqrt f (h 0))
-                       / Rsqr (feval sqrt g (h 0)))).
+    rewrite wdot_vadd_r by (rewrite !vscal_len, !fgrad_len; auto).
+    rewrite !wdot_vscal_r. numR.
+    apply (dpl_eq _ _ ((wdot w d (fgrad sqrt w f x) * feval sqrt w g (h 0) - wdot w d (fgrad sqrt w g x) * feval sqrt w f (h 0))
+                       / Rsqr (feval sqrt w g (h 0)))).
     { rewrite H0. unfold Rsqr. field. exact Hnz. }
-    apply (derivable_pt_lim_div (fun t => feval sqrt f (h t)) (fun t => feval sqrt g (h t)));
-      [apply (IHf x Wf Hx Rf h d Hc)|rewrite He in Hc; apply (IHg x Wg Hxg Rg h d Hc)|rewrite H0; exact Hnz].
+    apply (derivable_pt_lim_div (fun t => feval sqrt w f (h t)) (fun t => feval sqrt w g (h t)));
+      [apply (IHf w x Wf Of Hwl Hx Rf h d Hc)|rewrite He in Hc; apply (IHg w x Wg Og Hwg Hxg Rg h d Hc)|rewrite H0; exact Hnz].
   - (* RightVectorMult *)
     apply andb_prop in Hw as [Wf Hv]. apply Nat.eqb_eq in Hv.
     intros h d Hc.
     assert (Hxv : length (vmul x v) = fdim f) by (unfold vmul; apply vmap2_len; lia).
-    rewrite <- dot_vmul_shift, (vmul_comm v x).
-    apply (IH (vmul x v) Wf Hxv Hreg (fun t => vmul (h t) v) (vmul d v)). apply curve_mul_const; [exact Hc|exact Hv].
-  - (* Comp with a matrix *)
+    rewrite <- wdot_vmul_shift, (vmul_comm v x).
+    apply (IH w (vmul x v) Wf Hok Hwl Hxv Hreg (fun t => vmul (h t) v) (vmul d v)). apply curve_mul_const; [exact Hc|exact Hv].
+  - (* Comp with a matrix, between unweighted spaces *)
+    apply andb_prop in Hw as [Hw Hw'l]. apply Nat.eqb_eq in Hw'l.
     apply andb_prop in Hw as [Hw Hr]. apply andb_prop in Hw as [Wf Hrows]. apply Nat.eqb_eq in Hrows.
+    apply andb_prop in Hok as [Hok Of]. apply andb_prop in Hok as [O1 O1'].
     assert (Hrl : forall r, In r rows -> length r = n).
     { intros r Hin. rewrite forallb_forall in Hr. apply Nat.eqb_eq. apply Hr. exact Hin. }
     intros h d Hc. pose proof Hc as (_ & Hd & _).
     assert (Hmx : length (mvec rows x) = fdim f) by (rewrite mvec_len; exact Hrows).
+    rewrite (all_one_wdot w d _ O1) by lia.
     rewrite (dot_mtvec n rows _ d Hrl Hd); [|rewrite fgrad_len; auto].
-    apply (IH (mvec rows x) Wf Hmx Hreg (fun t => mvec rows (h t)) (mvec rows d)).
+    rewrite <- (all_one_wdot w' (mvec rows d) _ O1') by (rewrite mvec_len; lia).
+    apply (IH w' (mvec rows x) Wf Of Hw'l Hmx Hreg (fun t => mvec rows (h t)) (mvec rows d)).
     rewrite <- Hrows. apply (curve_mvec n); assumption.
 Qed.
 
 (* Functional.derivative(x) = InnerProductOperator(gradient(x)) is the Frechet derivative *)
-Corollary functional_derivative_sound (f : fexprR) x :
-  fwt f = true -> length x = fdim f -> fregular f x ->
-  hdiff (fdim f) 1 (fun y => [feval sqrt f y]) x (fun d => [dot d (fgrad sqrt f x)]).
-Proof. intros Hw Hx Hr. apply sdiff_hdiff. apply fgrad_sound; assumption. Qed.
+Corollary functional_derivative_sound (f : fexprR) w x :
+  fwt f = true -> fok w f = true -> length w = fdim f -> length x = fdim f -> fregular w f x ->
+  hdiff (fdim f) 1 (fun y => [feval sqrt w f y]) x (fun d => [wdot w d (fgrad sqrt w f x)]).
+Proof. intros Hw Hok Hwl Hx Hr. apply sdiff_hdiff. apply fgrad_sound; assumption. Qed.
 
 (* non-vacuity *)
 Definition ex_f : fexprR :=
   FQuot (FProd (FQP (FL2Sq 2) 3 [1; -1] 2) (FLScal (FL2 2) 2))
-        (FScalarSum (FCompM (FRScal (FTransl (FL1 2) [5; 5]) 2) 2 [[1; 0]; [0; 1]]) 1).
-Lemma ex_f_premises : fwt ex_f = true /\ length [1; 2] = fdim ex_f /\ fregular ex_f [1; 2].
+        (FScalarSum (FRScal (FTransl (FL1 2) [5; 5]) 2) 1).
+Definition ex_g : fexprR := FSum (FCompM (FL2Sq 1) [1] 2 [[1; 2]]) (FL1 2).
+Lemma ex_f_premises :
+  (fwt ex_f = true /\ fok [2; 3] ex_f = true /\ length [2; 3] = fdim ex_f /\ length [1; 2] = fdim ex_f /\
+   fregular [2; 3] ex_f [1; 2]) /\
+  (fwt ex_g = true /\ fok [1; 1] ex_g = true /\ fregular [1; 1] ex_g [1; 2]).
 Proof.
-  cbn. repeat split; try lra.
-  - intros i Hi. destruct i as [|[|i]]; cbn; [lra|lra|lia].
-  - intros Hz. unfold sum1 in Hz. cbn in Hz. numR.
-    rewrite !Rabs_left in Hz by lra. lra.
+  cbn. numR.
+  assert (E1 : Reqb 1 1 = true) by (destruct (Reqb_spec 1 1); [reflexivity|lra]).
+  rewrite E1. cbn [andb].
+  split; [split; [reflexivity|split; [reflexivity|split; [reflexivity|split; [reflexivity|]]]]
+         |split; [reflexivity|split; [reflexivity|split; [exact I|]]]].
+  - split; [split; [exact I|lra]|split].
+    + intros i Hi. destruct i as [|[|i]]; [lra|lra|lia].
+    + rewrite !Rabs_left by lra. lra.
+  - intros i Hi. destruct i as [|[|i]]; [lra|lra|lia].
 Qed.
